@@ -326,7 +326,15 @@ func (a *Announce) AnnounceName(name string) bool {
 func (a *Announce) GetStatus(meta types.NamespacedName) []IPAdvertisement {
 	a.RLock()
 	defer a.RUnlock()
-	return a.ips[meta.String()]
+	// Return a copy: SetBalancer replaces the elements of the internal slice
+	// in place while the caller reads the result without holding the lock.
+	ips := a.ips[meta.String()]
+	if ips == nil {
+		return nil
+	}
+	res := make([]IPAdvertisement, len(ips))
+	copy(res, ips)
+	return res
 }
 
 // GetInterfaces returns current interfaces list.
